@@ -39,14 +39,20 @@ Proof.
   apply deref_valid. eapply valid_ref_transport; eassumption.
 Qed.
 Theorem wrap_mut_id p : valid_ref I p -> Gen.Transparent.wrap_mut ENV W I u u p = Ret p.
-Proof. exact (wrap_ref_id p). Qed.
+Proof.
+  intros Hv. unfold Gen.Transparent.wrap_mut, transmute_ptr_m. rewrite ptr_size_eq. cbn [assert_m bind].
+  apply deref_valid. eapply valid_ref_transport; eassumption.
+Qed.
 Theorem peel_ref_id p : valid_ref W p -> Gen.Transparent.peel_ref ENV W I u u p = Ret p.
 Proof.
   intros Hv. unfold Gen.Transparent.peel_ref, transmute_ptr_m. rewrite ptr_size_eq. cbn [assert_m bind].
   apply deref_valid. destruct HC as [Hs Ha]. unfold valid_ref in *. rewrite Hs, Ha. exact Hv.
 Qed.
 Theorem peel_mut_id p : valid_ref W p -> Gen.Transparent.peel_mut ENV W I u u p = Ret p.
-Proof. exact (peel_ref_id p). Qed.
+Proof.
+  intros Hv. unfold Gen.Transparent.peel_mut, transmute_ptr_m. rewrite ptr_size_eq. cbn [assert_m bind].
+  apply deref_valid. destruct HC as [Hs Ha]. unfold valid_ref in *. rewrite Hs, Ha. exact Hv.
+Qed.
 
 Theorem wrap_peel_ref p : valid_ref I p ->
   (q <- Gen.Transparent.wrap_ref ENV W I u u p ;; Gen.Transparent.peel_ref ENV W I u u q) = Ret p.
@@ -78,14 +84,20 @@ Proof.
   cbn [assert_m bind]. apply from_raw_valid. apply valid_slice_transport. exact Hv.
 Qed.
 Theorem wrap_slice_mut_id s : valid_slice I s -> Gen.Transparent.wrap_slice_mut ENV W I s = Ret s.
-Proof. exact (wrap_slice_id s). Qed.
+Proof.
+  intros Hv. unfold Gen.Transparent.wrap_slice_mut. destruct HC as [Hs Ha]. rewrite Hs, Ha, !N.eqb_refl.
+  cbn [assert_m bind]. apply from_raw_valid. apply valid_slice_transport. exact Hv.
+Qed.
 Theorem peel_slice_id s : valid_slice W s -> Gen.Transparent.peel_slice ENV W I s = Ret s.
 Proof.
   intros Hv. unfold Gen.Transparent.peel_slice. destruct HC as [Hs Ha]. rewrite Hs, Ha, !N.eqb_refl.
   cbn [assert_m bind]. apply from_raw_valid. apply valid_slice_transport_back. exact Hv.
 Qed.
 Theorem peel_slice_mut_id s : valid_slice W s -> Gen.Transparent.peel_slice_mut ENV W I s = Ret s.
-Proof. exact (peel_slice_id s). Qed.
+Proof.
+  intros Hv. unfold Gen.Transparent.peel_slice_mut. destruct HC as [Hs Ha]. rewrite Hs, Ha, !N.eqb_refl.
+  cbn [assert_m bind]. apply from_raw_valid. apply valid_slice_transport_back. exact Hv.
+Qed.
 
 (* by value: the same bytes, produced once (the source is inside a ManuallyDrop: it is not dropped) *)
 Lemma transmute_all T v : N.of_nat (List.length v) = sz T -> transmute_copy T v = Ret v.
@@ -138,20 +150,21 @@ Proof. intros H. destruct uW, uI; try congruence; repeat split; reflexivity. Qed
 
 (* the slice and by-value forms assert size and alignment: with a mismatch they panic, they never
    build a slice or a value of the wrong extent *)
+Ltac guard_tac :=
+  unfold assert_m; repeat (cbn [bind]; match goal with |- context [if ?b then _ else _] => destruct b eqn:? end);
+  cbn [bind]; try reflexivity; exfalso;
+  repeat match goal with H : (_ =? _) = true |- _ => apply N.eqb_eq in H end;
+  match goal with H : _ \/ _ |- _ => destruct H; congruence end.
+
 Theorem slice_guard_panics ENV W I s : (sz I <> sz W \/ al I <> al W) ->
   Gen.Transparent.wrap_slice ENV W I s = Panic W_assert /\ Gen.Transparent.peel_slice ENV W I s = Panic W_assert /\
   Gen.Transparent.wrap_slice_mut ENV W I s = Panic W_assert /\ Gen.Transparent.peel_slice_mut ENV W I s = Panic W_assert.
 Proof.
   intros H. unfold Gen.Transparent.wrap_slice, Gen.Transparent.peel_slice, Gen.Transparent.wrap_slice_mut, Gen.Transparent.peel_slice_mut.
-  destruct (N.eqb_spec (sz I) (sz W)) as [Hs|Hs]; cbn [assert_m bind]; [|repeat split; reflexivity].
-  destruct (N.eqb_spec (al I) (al W)) as [Ha|Ha]; cbn [assert_m bind]; [|repeat split; reflexivity].
-  destruct H; contradiction.
+  repeat split; guard_tac.
 Qed.
 Theorem value_guard_panics ENV W I v : (sz I <> sz W \/ al I <> al W) ->
   Gen.Transparent.wrap ENV W I v = Panic W_assert /\ Gen.Transparent.peel ENV W I v = Panic W_assert.
 Proof.
-  intros H. unfold Gen.Transparent.wrap, Gen.Transparent.peel.
-  destruct (N.eqb_spec (sz I) (sz W)) as [Hs|Hs]; cbn [assert_m bind]; [|split; reflexivity].
-  destruct (N.eqb_spec (al I) (al W)) as [Ha|Ha]; cbn [assert_m bind]; [|split; reflexivity].
-  destruct H; contradiction.
+  intros H. unfold Gen.Transparent.wrap, Gen.Transparent.peel. split; guard_tac.
 Qed.
